@@ -96,7 +96,11 @@ def run(pid, tier, seed, replay=None):
                 for dbg in (dbgs if la in (0, 1, 2) else [0]):
                     cfg = dict(fl, la=la, debug=dbg)
                     cid = 'q%d_%d_%d_%d' % (i, fi, la, dbg)
-                    L = ['CASE %s' % cid, 'NEW 0'] + yvlib.script_cfg(0, cfg) + yvlib.script_read(0, g.as_dict(), 1 if strict else 0)
+                    gd = g.as_dict()
+                    v = yvlib.vary((seed, i), gd, [], p_pad=0.25, p_pre=0.0)     # the same padding for every level of one case
+                    if v.get('pad_after') is not None:
+                        gd = dict(gd, terms=list(v.get('pad_before', [])) + list(gd['terms']) + list(v['pad_after']))
+                    L = ['CASE %s' % cid, 'NEW 0'] + yvlib.script_cfg(0, cfg) + yvlib.script_read(0, gd, 1 if strict else 0)
                     L += ['VSET -1 0', 'VSET 0 1', 'PARSE 0 0 %d %s' % (len(w), ' '.join(map(str, gen.codes_of(g, w)))), 'COUNTERS', 'FREEG 0', 'END']
                     script.append('\n'.join(L)); index.append((i, fi, la, dbg, cfg))
     res = yvlib.run_driver(exe, '\n'.join(script), timeout_case=60)
